@@ -25,6 +25,7 @@ void VFN(vf_stop)(void);
 vf_i32 VFN(vf_ev)(vf_i32 kind, vf_i32 p);
 vf_i32 VFN(vf_id)(vf_i32 mi, vf_i32 r);
 vf_i32 VFN(vf_sid)(vf_i32 si);
+vf_i32 VFN(vf_flags)(void);
 
 extern uint32_t vf_lc[VF_MAXLOG];
 extern int32_t vf_la[VF_MAXLOG];
@@ -41,7 +42,8 @@ extern uint32_t vf_projmask;   /* which classes of behaviour-log entries this pr
 #define VF_M_X 8u
 #define VF_M_N 16u
 #define VF_M_C 32u
-#define VF_M_F 64u   /* which behaviour hooks fire in the current step */
+#define VF_M_F 64u
+#define VF_M_Q 128u   /* which behaviour hooks fire in the current step */
 
 void vf_init(void);
 uint32_t vf_nondet(int slot);
